@@ -22,8 +22,14 @@ pub struct SystemTime(pub SymU<64>);
 pub struct SymDur(pub SymU<64>);
 #[derive(Clone, Copy, Debug)]
 pub struct SymSecs(pub SymU<64>);
+/// as std: carries how far the second time lies after the first
 #[derive(Debug)]
-pub struct SystemTimeError;
+pub struct SystemTimeError(pub SymU<64>);
+impl SystemTimeError {
+    pub fn duration(&self) -> SymDur {
+        SymDur(self.0)
+    }
+}
 
 thread_local! {
     static NOW: Cell<Option<SymU<64>>> = Cell::new(None);
@@ -62,7 +68,7 @@ impl SystemTime {
     /// Err when `earlier` is later than self (as std)
     pub fn duration_since(&self, earlier: SystemTime) -> Result<SymDur, SystemTimeError> {
         if self.secs() < earlier.secs() {
-            Err(SystemTimeError)
+            Err(SystemTimeError(earlier.secs().wrapping_sub(self.secs())))
         } else {
             Ok(SymDur(self.secs().wrapping_sub(earlier.secs())))
         }
